@@ -328,6 +328,72 @@ def s_validate():
         "outs": st.lists(out, min_size=1, max_size=4), "as_spendables": st.booleans()})
 
 
+# ------------------------------------------------------------------ pairing through unspents_from_db
+
+
+def o_from_db(case):
+    """unspents_from_db over a database in which some sources are absent or filed under the wrong hash: every input whose
+    source is there gets exactly the output it spends, every other input gets None (ignore_missing) or the call raises;
+    once the caller has filled the reported gaps the fee is inputs minus outputs"""
+    seed = case["seed"]
+    sources = [_source(s, i, seed) for i, s in enumerate(case["sources"])]
+    db = dict((h, t) for t, h in sources)
+    spend = [(a % len(sources), b) for a, b in case["spend"]]
+    spend = [(a, b % len(case["sources"][a]["outs"])) for a, b in spend]
+    if case["group"]:
+        first = spend[0][0]
+        spend = sorted(spend, key=lambda p: p[0] != first)   # inputs spending the first input's source become adjacent
+    absent = set(a % len(sources) for a in case["absent"])
+    for a in sorted(absent):
+        h = sources[a][1]
+        if (a + case["seed"]) % 3 == 0:
+            fake, fh = _source(dict(case["sources"][a], lock_time=case["sources"][a]["lock_time"] ^ 5), a, seed)
+            db[h] = fake                                     # an unrelated transaction filed under the hash
+        else:
+            del db[h]
+    txs_in = [Tx.TxIn(sources[a][1], b, b"", 0xffffffff) for a, b in spend]
+    outs = [Tx.TxOut(v, bytes.fromhex(s)) for v, s in case["outs"]]
+    tx = Tx(1, txs_in, outs, 0)
+    want = [None if a in absent else tuple(case["sources"][a]["outs"][b]) for a, b in spend]
+    labels = ["inputs=%s" % (len(spend) if len(spend) < 3 else "3+"), "absent=%d" % min(len(absent), 2),
+              "ignore_missing=%r" % case["ignore_missing"]]
+    if any(w is None for w in want) and any(w is not None for w in want):
+        labels.append("mixed")
+    if any(spend[i][0] == spend[i + 1][0] and spend[i][0] in absent for i in range(len(spend) - 1)):
+        labels.append("adjacent-inputs-from-one-absent-source")
+    try:
+        tx.unspents_from_db(db, ignore_missing=case["ignore_missing"])
+    except KeyError:
+        if case["ignore_missing"] or all(w is not None for w in want):
+            _bad("from_db:raises-without-a-missing-source", "unspents_from_db(ignore_missing=%r) raised KeyError; absent sources %r, inputs %r" % (
+                case["ignore_missing"], sorted(absent), spend))
+        return labels + ["raised"]
+    if not case["ignore_missing"] and any(w is None for w in want):
+        _bad("from_db:missing-source-accepted", "unspents_from_db() returned although the sources %r are not in the database" % sorted(absent))
+    got = [None if u is None else (u.coin_value, u.script.hex()) for u in tx.unspents]
+    if got != want:
+        _bad("from_db:pairing", "inputs %r, absent sources %r: unspents %r, expected %r" % (spend, sorted(absent), got, want))
+    flags = [tx.missing_unspent(i) for i in range(len(spend))]
+    if flags != [w is None for w in want]:
+        _bad("from_db:missing_unspent-flags", "missing_unspent = %r for unspents %r" % (flags, want))
+    # the caller fills the reported gaps from its own records
+    for i, (a, b) in enumerate(spend):
+        if tx.unspents[i] is None:
+            v, s = case["sources"][a]["outs"][b]
+            tx.unspents[i] = Tx.TxOut(v, bytes.fromhex(s))
+    model_fee = sum(case["sources"][a]["outs"][b][0] for a, b in spend) - sum(v for v, _s in case["outs"])
+    if tx.total_in() - tx.total_out() != model_fee or tx.fee() != model_fee:
+        _bad("tx:fee-arithmetic", "after filling the gaps fee() = %d, inputs - outputs = %d" % (tx.fee(), model_fee))
+    return labels + ["paired"]
+
+
+def s_from_db():
+    base = s_validate()
+    return st.builds(lambda c, absent, ign, group: {"seed": c["seed"], "sources": c["sources"], "spend": c["spend"], "outs": c["outs"],
+                                                    "absent": absent, "ignore_missing": ign, "group": group},
+                     base, st.lists(st.integers(0, 50), max_size=3), st.sampled_from([True, True, False]), st.booleans())
+
+
 # ------------------------------------------------------------------ conversions
 
 
@@ -464,6 +530,13 @@ SUBCHECKS = [
                   "outpoints and unspents recorded from the sources; none or exactly one discrepancy (amount +-, script byte / length, "
                   "source missing, other transaction under the hash, filed transaction edited, index past the end, two different "
                   "unspents swapped): consistent -> returns inputs - outputs; discrepancy -> any exception; non-trivial = with discrepancy"),
+    SubCheck("unspents_from_db_pairing", o_from_db, strategy=s_from_db, budget=(3000, 150000),
+             nontrivial=lambda c, l: "mixed" in l,
+             rule="1-5 source transactions, a spending transaction with 1-8 inputs (optionally grouped so that inputs from one source are "
+                  "adjacent), 0-3 sources absent from the database or replaced by an unrelated transaction filed under the same hash, "
+                  "ignore_missing on/off: unspents[i] is exactly the spent output or None, missing_unspent flags agree, strict mode raises "
+                  "KeyError iff a source is absent, and after the gaps are filled fee() = inputs - outputs; non-trivial = some inputs "
+                  "resolved and some not"),
     SubCheck("fee_history", o_fee_history, strategy=s_fee_history, budget=(3000, 150000),
              nontrivial=lambda c, l: "query-after-replacement" in l,
              rule="one long-lived Tx: 2-10 operations, each a query (total_in / total_out / fee), a validate_unspents call, a replacement of the recorded unspents (set_unspents, unspents_from_db, or assignment to tx.unspents) with true or perturbed amounts, or an edit of an output value; every query equals the arithmetic on the current state; non-trivial = a query after a replacement"),
